@@ -346,6 +346,47 @@ func c02Guards(c *Ctx, sb *strings.Builder) {
 		})
 	}
 	fmt.Fprintf(sb, "/-- `fastregex.buildRegexp` (re2.go): the compile function per mode -/\ndef buildRegexp : List String := %s\n", leanStrList(calls))
+	// cmd/filter.go: the `--line` prefix – format string and the two colours
+	{
+		env := c.constEnv("pkg/color/coloring.go")
+		var format string
+		colors := map[string]string{}
+		okF := false
+		if fd := c.Func("cmd/filter.go", "filterFunction"); fd != nil {
+			ast.Inspect(fd, func(n ast.Node) bool {
+				call, ok := n.(*ast.CallExpr)
+				if !ok {
+					return true
+				}
+				name := exprStr(c, call.Fun)
+				switch name {
+				case "fmt.Printf":
+					if len(call.Args) > 0 {
+						if v, ok := StringLit(call.Args[0]); ok {
+							format, okF = v, true
+						}
+					}
+				case "color.Wrap", "color.Wrapi":
+					if len(call.Args) == 2 {
+						if se, ok := call.Args[0].(*ast.SelectorExpr); ok {
+							if v, has := env[se.Sel.Name]; has {
+								colors[name+":"+exprStr(c, call.Args[1])] = v
+							}
+						}
+					}
+				}
+				return true
+			})
+		}
+		src, ok1 := colors["color.Wrap:match.Source"]
+		num, ok2 := colors["color.Wrapi:match.LineNumber"]
+		if okF && ok1 && ok2 {
+			fmt.Fprintf(sb, "def filterPrefixFormat : String := %s\ndef filterSrcColor : String := %s\ndef filterNumColor : String := %s\n", leanStr(format), leanStr(src), leanStr(num))
+		} else {
+			sb.WriteString(untranslatable("filterPrefixFormat"))
+		}
+		c.Fingerprint("pkg/color/coloring.go", "Wrap")
+	}
 	c.Fingerprint("pkg/matchers/fastregex/re2.go", "buildRegexp")
 	c.Fingerprint("pkg/matchers/fastregex/re2.go", "createGroupNameTable")
 }
